@@ -454,6 +454,15 @@ func (c *Client) Tx(ctx context.Context, hash []byte, prove bool) (*ctypes.Resul
 		return nil, err
 	}
 
+	// The proof must be for the transaction that is returned, and that
+	// transaction must be the one that was asked for.
+	if !bytes.Equal(res.Proof.Data, res.Tx) {
+		return nil, errors.New("proof is not for the returned transaction")
+	}
+	if !bytes.Equal(res.Tx.Hash(), hash) {
+		return nil, fmt.Errorf("returned transaction %X does not match the requested hash %X", res.Tx.Hash(), hash)
+	}
+
 	// Validate the proof.
 	return res, res.Proof.Validate(l.DataHash)
 }
